@@ -1,6 +1,6 @@
 use super::dynamic_constraints_encoder_attacks::DynamicConstraintsEncoder;
 use crate::{
-    aa::{AAFramework, Argument, Semantics},
+    aa::{AAFramework, Argument, ArgumentSet, Semantics},
     sat::SatSolver,
     utils::LabelType,
 };
@@ -38,6 +38,8 @@ where
     next_to_encode: Cell<usize>,
     encoder: DynamicConstraintsEncoder,
     solver_factory: Box<dyn Fn() -> Box<dyn SatSolver>>,
+    // the framework as seen by the caller: updates are applied to it (and validated) as soon as they are buffered
+    logical_af: AAFramework<T>,
 }
 
 impl<T> BufferedDynamicConstraintsEncoder<T>
@@ -56,26 +58,37 @@ where
             next_to_encode: Cell::new(0),
             encoder,
             solver_factory,
+            logical_af: AAFramework::new_with_argument_set(ArgumentSet::new_with_labels(&[])),
         }
     }
 
     pub fn buffer_new_argument(&mut self, label: T) {
-        self.buffer.push(DynamicsEvent::NewArgument(label))
+        let n_arguments = self.logical_af.n_arguments();
+        self.logical_af.new_argument(label.clone());
+        if self.logical_af.n_arguments() > n_arguments {
+            self.buffer.push(DynamicsEvent::NewArgument(label))
+        }
     }
 
     pub fn buffer_remove_argument(&mut self, label: &T) -> Result<()> {
+        self.logical_af.remove_argument(label)?;
         self.buffer
             .push(DynamicsEvent::RemoveArgument(label.clone()));
         Ok(())
     }
 
     pub fn buffer_new_attack(&mut self, from: &T, to: &T) -> Result<()> {
-        self.buffer
-            .push(DynamicsEvent::NewAttack(from.clone(), to.clone()));
+        let n_attacks = self.logical_af.n_attacks();
+        self.logical_af.new_attack(from, to)?;
+        if self.logical_af.n_attacks() > n_attacks {
+            self.buffer
+                .push(DynamicsEvent::NewAttack(from.clone(), to.clone()));
+        }
         Ok(())
     }
 
     pub fn buffer_remove_attack(&mut self, from: &T, to: &T) -> Result<()> {
+        self.logical_af.remove_attack(from, to)?;
         self.buffer
             .push(DynamicsEvent::RemoveAttack(from.clone(), to.clone()));
         Ok(())
